@@ -7,9 +7,20 @@
   widths, f32 (fixed points of the f32 rounding, `C04_f32_idem`), f64 including NaN bit patterns, options
   (also `Option<Option<T>>`, `Option<()>`), sequences, sets, tuples, maps, structs, unit / newtype /
   tuple structs, enums with the four variant kinds, nested arbitrarily; witnesses show each hypothesis
-  is needed.  The text path composes this with C01 (floats to the accuracy of C05).
+  is needed.
+  Text path, fully proved (LexprModel/Proofs/SerdeText.lean, imported here): `C04_ser_leaves`,
+  `C04_ser_supported` — every value the serializer produces has only round-trippable leaves (given plain
+  field and variant names, valid strings, scalar chars, exactly readable floats) and nests at most
+  `depthOf t d` deep; `C04_text`, `C04_text_identity` — Rust data -> `to_string` -> `from_str` /
+  `from_slice` / `from_reader` -> Rust data is the identity, for the whole type universe;
+  `C04_text_unicode` (names with a non-ASCII alphabetic initial).  Witnesses that each hypothesis is
+  needed, all confirmed on the real crate: `C04_text_names_needed` (a field renamed to `my field`, to
+  `1st`, or named `℘` — an identifier rustc accepts whose first character is not `char::is_alphabetic`:
+  recorded as a known finding), `C04_text_depth_needed` (data nested 128 levels: the value path works,
+  the text path hits the recursion limit, as C03 documents), `C04_text_float_window_needed`.
 -/
 import LexprModel.Proofs.SerdeRT
+import LexprModel.Proofs.SerdeText
 namespace Lexpr
 namespace Serde
 
@@ -65,6 +76,15 @@ theorem C04_option_unit :
 
 example : de (.int .u64) (serInt .u64 18446744073709551615) = .ok (.int 18446744073709551615) :=
   C04_int .u64 _ (by simp [IntTy.lo, IntTy.hi])
+
+/-- **C04_text_roundtrip** (the second sentence of the property): serialising to text with the default
+    printer and deserialising that text with the default parser, from any of the three sources, returns
+    the original datum. -/
+theorem C04_text_roundtrip (cfg : Parse.Cfg) (ho : cfg.opts = Parse.Options.default)
+    (ryu : Nat → List UInt8) (t : Ty) (d : Data) (wf : WellFormed t) (hN : PlainNames t) (h : HasTy t d)
+    (hl : LeavesOK (Decimals.FloatOK cfg ryu) t d) (hn : depthOf t d ≤ 127) (m : Parse.Mode) :
+    ∃ bytes, toText ryu t d = some bytes ∧ fromText cfg m t bytes = some (.ok d) :=
+  C04_text_identity cfg ho ryu t d wf hN h hl hn m
 
 end Serde
 end Lexpr
